@@ -73,6 +73,11 @@ inline Mat random_mat(Prng &r, size_t rows, size_t cols, double lo_exp = -3, dou
   return a;
 }
 
+// When the library objects reference a synchronisation primitive the simulator does not model (checked by the driver from the
+// undefined symbols of the library objects), happens-before knowledge is incomplete: race reports become advisory and only
+// result divergence decides (DESIGN.md section 2.3).
+inline bool races_are_verdicts() { static int v = -1; if (v < 0) { const char *e = getenv("SIM_RACES_ADVISORY"); v = (e && *e == '1') ? 0 : 1; } return v == 1; }
+
 // race report -> message
 inline std::string races_text(size_t maxn = 3) {
   const sim_race *rs; size_t n = sim_races(&rs);
@@ -87,7 +92,7 @@ inline std::string races_text(size_t maxn = 3) {
 // class of the first race: function names of the two sites, address free, order independent
 inline std::string race_class() {
   const sim_race *rs; size_t n = sim_races(&rs);
-  if (!n) return "";
+  if (!n || !races_are_verdicts()) return "";
   std::set<std::string> objs;
   for (size_t i = 0; i < n; i++) {
     std::string o = rs[i].object; size_t p = o.find('+'); if (p != std::string::npos) o = o.substr(0, p);
